@@ -22,7 +22,7 @@ CHECKS.update({
 CHECKS.update({
  "C11": dict(technique="TLA+ reference of lazy materialisation (Lazy.tla / LazyMC) model-checked by TLC; its state graph replayed on real segments, fields and messages; every read/write step judged by the TLC trace specification LazyTrace",
     text="Every order of writes to three leaf chains (depth up to 4, with groups) and reads of every prefix and of never-written chains in 15 ways (attribute chains by name / long name / upper case, indexing, len, iteration, repr, to_er7, validate, children.get), with random reads interleaved before each write: TLC requires a read to leave the recursive projection, the encoding and the validation verdict unchanged, and a write to add exactly the chain's elements, once each, at the defined position.",
-    note="Trusted: TLC, Lazy.tla, the recursive public projection (.children, to_er7, validate). Roots: Segment PID, Field PID_3, Message ADT_A01, Message OML_O33; quick = v2.5, thorough = 4 versions; both levels.",
+    note="Trusted: TLC, Lazy.tla, the recursive public projection (.children, to_er7, validate). Roots: Segment PID, Field PID_3, Message ADT_A01, Message OML_O33; quick = v2.5, thorough = 2.5 and 2.5.1 (the chains are those of 2.5); both levels.",
     ref="DESIGN.md §4 C09-C12, §3.6"),
  "C06": dict(technique="TLA+ relation Escape!Allowed (delimiter-safe, well-formed, stable => unchanged) with a tokenising witness model-checked by TLC over all short strings; the same enumeration through every textual datatype class and through segments, judged by the TLC trace specification EscapeTrace",
     text="TLC shows over all strings up to the length bound that the reference satisfies the property, is idempotent and that its fixpoints are exactly the stable texts, and refutes the algorithm shipped in 1.3.x (negative control). All strings up to length 4 (thorough 5) over 12 roles plus random longer ones, rendered with 3 (thorough 8) delimiter sets including every regex metacharacter, go through each distinct textual class and through PID segments (field/component/subcomponent level, re-parse and re-encode); TLC decides each observation.",
